@@ -134,7 +134,7 @@ SAME_URI_RULES.update({
 VERBS = ("get", "put", "post", "delete", "patch")
 
 
-def mk_yaml(apis, rules, title="widgets.example.com", selective=None, package=None):
+def mk_yaml(apis, rules, title="widgets.example.com", selective=None, package=None, omit=False):
     """rules: list of dicts with 'selector' + HttpRule fields, in order.
     selective: ['Service.Rpc', ...] — selective GAPIC generation with that allow-list, the omitted rpcs kept as internal."""
     y = {"type": "google.api.Service", "config_version": 3, "name": title, "apis": [{"name": a} for a in apis]}
@@ -142,8 +142,15 @@ def mk_yaml(apis, rules, title="widgets.example.com", selective=None, package=No
         y["http"] = {"rules": [dict(r) for r in rules]}
     if selective is not None:
         y["publishing"] = {"library_settings": [{"version": package, "python_settings": {"common": {"selective_gapic_generation": {
-            "methods": [f"{package}.{m}" for m in selective], "generate_omitted_as_internal": True}}}}]}
+            "methods": [f"{package}.{m}" for m in selective], "generate_omitted_as_internal": not omit}}}}]}
     return y
+
+
+def effective_services(services, selective, omit):
+    """The services the library is generated for: in OMIT mode the rpcs outside the allow-list do not exist at all."""
+    if selective is None or not omit:
+        return services
+    return [(s, [m for m in ms if f"{s}.{m}" in selective]) for s, ms in services]
 
 
 def internal_rpcs(services, selective):
